@@ -69,6 +69,8 @@ COMMANDS = [
     ("class-def", "def class Shape do def sides = 4; def describe(self) 'shape ' + string(self->sides) end; Shape->sides"),
     ("class-def-fails", "def class Shape do def sides = 3; def bad = nosuch_name; def other(self) 1 end"),
     ("loop-def", "for i in [1, 2, 3] do def seen_in_loop = i * 10 end; seen_in_loop"),
+    # a loop whose variable has the name of a session variable: the session variable is there again afterwards
+    ("loop-over-x", "for x in [7, 8] do x end; x"),
 ]
 RUN_FILES = {"defs_file.ckl": "def from_file = 41;\ndef from_file_fn() from_file + 1;\n",
              "failing_file.ckl": "def early = 7;\nerror 'fromfile';\ndef late = 8;\n"}
@@ -175,6 +177,8 @@ class Model:
         if name == "loop-def":
             b["seen_in_loop"] = 30
             return ("value", "30")
+        if name == "loop-over-x":
+            return ("value", str(b["x"])) if "x" in b else ERR
         if name == "long-script-syntax":
             return ("syntax",)
         if name == "long-script-runtime":
@@ -439,6 +443,7 @@ def plan(tier, seed):
         specs.append({"kind": "random", "n": 40 if tier == "quick" else 400})
     for i in range(2 if tier == "quick" else 16):
         specs.append({"kind": "repl", "n": 12 if tier == "quick" else 60})
+    specs.append({"kind": "escaping"})
     return specs
 
 
@@ -447,6 +452,9 @@ START_CWD = [None]
 
 def run_shard(spec, ctx):
     START_CWD[0] = os.getcwd()
+    if spec["kind"] == "escaping":
+        from cklmon import sessions
+        return sessions.run_escaping(ctx, "C10")
     moddir = os.path.join(os.getcwd(), "mods")
     write_modules(moddir)
     write_modules(moddir + "_b", variant=1)
